@@ -1196,6 +1196,21 @@ pub fn tlv_run(seed: u32, n: usize) -> Vec<u8> {
         }
         i += 3 + len;
     }
+    // one run in four begins with a cloud vendor's TLV (they are what real senders append)
+    if seed % 4 == 3 && (seed >> 2) % 4 == 0 {
+        let mut v: Vec<u8> = match (seed >> 4) % 3 {
+            0 => {
+                let id = format!("\x01vpce-0{:016x}", seed);
+                let mut v = vec![0xEA, 0, id.len() as u8];
+                v.extend_from_slice(id.as_bytes());
+                v
+            }
+            1 => vec![0xEE, 0, 5, 1, seed as u8, (seed >> 8) as u8, (seed >> 16) as u8, (seed >> 24) as u8],
+            _ => vec![0xE0, 0, 8, 0, 0, 0, 1, seed as u8, (seed >> 8) as u8, (seed >> 16) as u8, (seed >> 24) as u8],
+        };
+        v.extend_from_slice(&out);
+        out = v;
+    }
     out.truncate(n);
     out
 }
@@ -1462,7 +1477,29 @@ pub fn gen_tlv_list(t: &mut Tape, room: usize) -> Vec<(u8, Vec<u8>)> {
         // (ALPN ids - also in TLS wire form with a length byte in front -, host names, request ids as UUID text in either
         // case, TLS versions / ciphers / certificate names, a CRC, a namespace)
         if t.chance(1, 12) {
-            let (k, v): (u8, Vec<u8>) = match t.below(14) {
+            let (k, v): (u8, Vec<u8>) = match t.below(19) {
+                // the SSL container as HAProxy emits it: client flags (bit 0 set), 4-byte verify result, then sub-TLVs
+                17 | 18 => {
+                    let mut v = vec![*t.pick(&[0x01u8, 0x01, 0x03, 0x05, 0x07, 0x00]), 0, 0, 0, t.below(2) as u8];
+                    let subs: [(u8, &str); 5] = [(0x21, "TLSv1.3"), (0x22, "client.example.org"), (0x23, "TLS_AES_128_GCM_SHA256"), (0x24, "SHA256"), (0x25, "RSA2048")];
+                    let n = t.usize_in(0, 4);
+                    for i in 0..n {
+                        let (k, w) = subs[(i + t.below(5) as usize) % 5];
+                        v.push(k);
+                        v.extend_from_slice(&(w.len() as u16).to_be_bytes());
+                        v.extend_from_slice(w.as_bytes());
+                    }
+                    (0x20, v)
+                }
+                // the cloud vendors' TLVs: AWS VPC endpoint id (0xEA: subtype 1 + "vpce-..."), Azure private link id (0xEE:
+                // subtype 1 + 4-byte little-endian id), GCP PSC connection id (0xE0: 8 bytes)
+                14 => (0xEA, format!("\x01vpce-0{:016x}", t.u32()).into_bytes()),
+                15 => {
+                    let mut v = vec![0x01];
+                    v.extend_from_slice(&t.u32().to_le_bytes());
+                    (0xEE, v)
+                }
+                16 => (0xE0, (t.u32() as u64 * 0x1_0001).to_be_bytes().to_vec()),
                 0 => (0x01, t.pick(&["h2", "http/1.1", "h3", "spdy/3.1"]).as_bytes().to_vec()),
                 1 => {
                     let w = t.pick(&["h2", "http/1.1", "h3", "acme-tls/1"]).as_bytes();
@@ -1519,7 +1556,18 @@ pub fn enc_tlv_list(list: &[(u8, Vec<u8>)]) -> Vec<u8> {
 
 /// TLV section bytes of one of the classes empty / well-formed / truncated / random.
 pub fn gen_tlv_section(t: &mut Tape, room: usize) -> (Vec<u8>, &'static str) {
-    match t.weighted(&[8, 20, 8, 8, 2, 2, 1]) {
+    match t.weighted(&[8, 20, 8, 8, 2, 2, 1, 1]) {
+        7 => {
+            // alignment padding (1..=8 zero bytes, 4 favoured) in front of a well-formed list, or between its items
+            let list = gen_tlv_list(t, room.saturating_sub(8));
+            let pad = *t.pick(&[4usize, 4, 4, 8, 1, 2, 3, 5, 6, 7]);
+            let at = if t.chance(2, 3) || list.is_empty() { 0 } else { t.below(list.len() as u32) as usize };
+            let mut s = enc_tlv_list(&list[..at]);
+            s.extend(std::iter::repeat(0u8).take(pad));
+            s.extend(enc_tlv_list(&list[at..]));
+            s.truncate(room);
+            (s, "tlv-padding-then-items")
+        }
         6 => {
             // thousands of tiny items (registered types, values of 0..8 bytes), up to the whole room
             let n = match t.below(4) {
@@ -1589,9 +1637,48 @@ pub fn gen_v2_header(t: &mut Tape) -> V2Gen {
     if fam != 0 && t.chance(1, 40) {
         section = addr.clone();
         tlv_kind = "tlv-random";
+    } else if t.chance(1, 40) {
+        // ... or is itself one complete, well-formed v2 header (a header forwarded as opaque payload of another one)
+        let mut inner = SIG.to_vec();
+        inner.push(0x20 | t.below(2) as u8);
+        let ifam = t.below(3) as u8;
+        inner.push((ifam << 4) | t.below(3) as u8);
+        let mut ip = gen_addr_block(t, ifam);
+        if t.coin() {
+            ip.extend(enc_tlv_list(&gen_tlv_list(t, 60)));
+        }
+        inner.extend_from_slice(&(ip.len() as u16).to_be_bytes());
+        inner.extend_from_slice(&ip);
+        section = inner;
+        tlv_kind = "tlv-random";
     }
     let mut payload = addr;
     payload.extend_from_slice(&section);
+    // one header in fifty is what a sender produces that dumps two raw socket address structures: sockaddr_un (family word
+    // 1 + 108 path bytes, 220 bytes for the pair), sockaddr_in (32 bytes), sockaddr_in6 (56 bytes); family word in either
+    // byte order
+    if fam != 0 && t.chance(1, 50) {
+        let (word, size): (u16, usize) = match fam {
+            1 => (2, 16),
+            2 => (10, 28),
+            _ => (1, 110),
+        };
+        let w = if t.coin() { word.to_be_bytes() } else { word.to_le_bytes() };
+        let mut dump = Vec::new();
+        for _ in 0..2 {
+            let mut one = w.to_vec();
+            one.extend(fill(t.u32() | 1, size - 2));
+            if fam == 3 {
+                // a path, NUL-terminated
+                for (i, b) in one.iter_mut().enumerate().skip(2) {
+                    *b = if i < 20 { b'a' + (*b % 26) } else { 0 };
+                }
+                one[2] = b'/';
+            }
+            dump.extend(one);
+        }
+        payload = dump;
+    }
     // declared-length classes: exact fit is the only valid relation for a complete header; the
     // payload itself is sized by the TLV generator (including totals of exactly 65535)
     if t.chance(1, 40) && payload.len() < 65535 {
@@ -1616,7 +1703,20 @@ pub fn gen_v2_header(t: &mut Tape) -> V2Gen {
 /// Near-miss v2 inputs (G-V2MUT).
 pub fn gen_v2_mutant(t: &mut Tape) -> (Vec<u8>, &'static str) {
     let mut h = gen_v2_header(t).bytes;
-    match t.below(14) {
+    match t.below(15) {
+        14 => {
+            // a valid fixed part announcing more than what follows it, and what follows is text: a complete v1 line (a chain
+            // of proxies speaking both versions), or the start of one
+            let line = gen_valid_line(t, true);
+            let fam = (h[13] >> 4) as usize & 3;
+            let l = (line.len() + 1 + t.below(300) as usize).max(NEED[fam]);
+            h.truncate(16);
+            h[14] = (l >> 8) as u8;
+            h[15] = l as u8;
+            let keep = if t.chance(2, 3) { line.len() } else { t.below(line.len() as u32 + 1) as usize };
+            h.extend_from_slice(&line[..keep]);
+            (h, "fixed-part-then-v1-line")
+        }
         13 => {
             // two aligned words of the first 16 / 32 bytes exchanged (4- or 8-byte words): the same bytes, the same sums
             // and XORs over words, another order
@@ -1754,7 +1854,18 @@ pub fn gen_v2_mutant(t: &mut Tape) -> (Vec<u8>, &'static str) {
 pub fn gen_related(t: &mut Tape, x: &[u8]) -> Vec<u8> {
     let mut y = x.to_vec();
     let cr = y.iter().position(|&b| b == b'\r');
-    match t.below(20) {
+    match t.below(21) {
+        20 => {
+            // another protocol keyword in front of the very same text (TCP4 <-> TCP6 <-> UNKNOWN)
+            if y.starts_with(b"PROXY ") {
+                if let Some(end) = y[6..].iter().position(|&b| b == b' ' || b == b'\r').map(|p| p + 6) {
+                    let cur = y[6..end].to_vec();
+                    let options: Vec<&[u8]> = [&b"TCP4"[..], b"TCP6", b"UNKNOWN"].into_iter().filter(|o| **o != cur[..]).collect();
+                    let pick = options[t.below(options.len() as u32) as usize].to_vec();
+                    y.splice(6..end, pick);
+                }
+            }
+        }
         16 => {
             // two aligned words (4 or 8 bytes) exchanged, within the first 32 bytes or anywhere
             let w = if t.coin() { 4 } else { 8 };
